@@ -13,7 +13,7 @@ var intrinsicNames = map[string]bool{
 	"vCover": true, "vAssertBytesEqual": true, "vTag": true, "vRegister": true, "vEvent": true,
 	"vFloat64": true, "vIsSymbolic": true, "vGhostCount": true, "vGhostInt": true, "vFreshBytes": true,
 	"vBytesEq": true, "vNative": true, "vHashOf": true, "vSealed": true, "vAssertStrEqual": true,
-	"vASCII": true, "vObjID": true, "vLog": true,
+	"vASCII": true, "vObjID": true, "vLog": true, "vFromRNG": true,
 }
 
 func isHarnessIntrinsic(n string) bool { return intrinsicNames[n] }
@@ -168,6 +168,26 @@ func (in *Interp) intrinsic(fn *ssa.Function, args []Value) Value {
 			cs = append(cs, tb.Or(tb.SLe(ln, ii), tb.ULt(in.memRead(m, tb.Add(off, ii)), tb.Const(8, 0x80))))
 		}
 		return tb.And(cs...)
+	case "vFromRNG":
+		s := args[0].(SliceV)
+		if !s.Len.IsConst() {
+			return tb.False
+		}
+		ok := true
+		seenIdx := map[uint64]bool{}
+		for _, b := range in.sliceBytes(s, int(s.Len.V)) {
+			isR := false
+			if b.Op == OSelect && b.A[1].IsConst() && !seenIdx[b.A[1].V] {
+				for _, ra := range in.ghost.randArrs {
+					if ra == b.A[0] {
+						isR = true
+					}
+				}
+				seenIdx[b.A[1].V] = true
+			}
+			ok = ok && isR
+		}
+		return tb.Bool(ok)
 	case "vObjID":
 		switch x := args[0].(type) {
 		case IfaceV:
